@@ -71,7 +71,9 @@ class Extracted:
   def funcv(self, loops=None, frames=()):
     if not isinstance(self.node, ast.FunctionDef):
       raise Undecided(f'{self.path} is not a function')
-    return FuncV(self.node, frames, name=self.qualname, loops=loops or {})
+    f = FuncV(self.node, frames, name=self.qualname, loops=loops or {})
+    f.relpath = self.relpath
+    return f
 
   def record(self):
     return {'function': self.path, 'sha256_16': self.sha, 'line': self.lineno}
